@@ -169,6 +169,7 @@ static void ref_expand(const char *s, sb_t *o, int depth)
             size_t l = 0; int k;
             if (in_single) dont_care = 1;                          /* the statement does not say whether calls are made inside single quotes */
             for (k = 0; k < 7; k++) { l = strlen(bi[k]); if (!strncasecmp(p + 1, bi[k], l) && (p[1 + l] == '(' || (p[1 + l] == ' ' && p[2 + l] == ')'))) break; }
+            if (k < 7 && p[1 + l] != '(') { dont_care = 1; len_unknown = 1; if (strcasestr(p, "put")) store_unknown = 1; }      /* the "%name )" spelling: what it takes for its arguments is not stated */
             if (k == 7) { dont_care = 1; len_unknown = 1; if (strcasestr(p, "%put")) store_unknown = 1; sb_ch(o, c); continue; }   /* unknown %word (how much of what follows it swallows is not said either) */
             {
                 const char *q = p + 1 + l, *start; int lvl = 1; char *args;
@@ -221,7 +222,7 @@ static void one_pass(const plan_t *p, int pass)
     int nres = 0;
     memset(vars, 0, sizeof(vars));
     store_uncertain = 0;
-    tmpdir_odd = plan_get(p, "tmpdir", 0) == 2 || plan_get(p, "tmpdir", 0) == 3;
+    tmpdir_odd = plan_get(p, "tmpdir", 0) == 2 || plan_get(p, "tmpdir", 0) == 3 || plan_get(p, "fdopen.fail", 0) || plan_get(p, "fchmod.fail", 0);
     conf_env_setup(p);
     simenv_set_rand_seed(p->seed | 1);              /* both passes see the same rand() sequence */
     { int f0 = (int)plan_get(p, "alloc.fill", FILL_A5); sa_set_fill(pass ? (f0 == FILL_FF ? FILL_A5 : FILL_FF) : f0); }      /* the second pass always runs on a different fill */
@@ -408,7 +409,10 @@ static void gen_piece(rng_t *r, int depth, int inside_args)
     else if (c < 95) ga("`echo bq%u`", rng_below(r, 9));
     else if (c < 96) ga("%%nosuch(x)");
     else if (c < 97) { static const char *open_[] = { "${V1", "$(V1", "${", "$(", "${}", "$()", "`echo never closed" }; ga(open_[rng_below(r, 7)]); }
-    else if (c < 98) ga(rng_chance(r, 1, 2) ? "%%get(" : "%%");
+    else if (c < 98) {
+        if (rng_chance(r, 1, 2)) { static const char *sp[] = { "%%version )", "%%appname ) t)", "%%get ) k1)", "%%put ) k2 v)", "%%random ) a b)", "%%exec ) echo x)" }; ga(sp[rng_below(r, 6)]); }      /* the "%name )" spelling */
+        else ga(rng_chance(r, 1, 2) ? "%%get(" : "%%");
+    }
     else if (c < 99) { static const char *ds[] = { "%%dirscan(/cfg/d)", "%%dirscan(/cfg/d)", "%%dirscan(/cfg/nodir)", "%%dirscan(/cfg/d/one)", "%%dirscan(/cfg/d/dir)" }; ga(ds[rng_below(r, 5)]); }
     else ga("$");
 }
@@ -423,6 +427,7 @@ static void gen_c10(plan_t *p, rng_t *r)
     if (rng_chance(r, 1, 10)) { o = plan_op(p, 0, "env", 1, (long)rng_chance(r, 1, 2)); op_str(o, "HOME", 4); op_str2(o, "", 0); }
     if (rng_chance(r, 1, 3)) plan_op(p, 0, "builtin", 1, (long)rng_range(r, 1, 5));
     if (rng_chance(r, 1, 10)) { static const int el[] = { 120, 127, 128, 300, 4096, 20470, 20478, 20479, 20480, 20481, 30000, 65000 }; plan_knob(p, rng_chance(r, 1, 2) ? "env.v1len" : "env.homelen", el[rng_below(r, 12)]); }
+    if (rng_chance(r, 1, 12)) plan_knob(p, rng_chance(r, 1, 2) ? "fdopen.fail" : "fchmod.fail", rng_range(r, 1, 3));      /* a command's output cannot be read back / its temporary file cannot be given its mode */
     if (rng_chance(r, 1, 12)) { static const int tl[] = { 200, 230, 238, 239, 240, 241, 242, 243, 244, 245, 250, 256, 300 }; plan_knob(p, "tmpdir", rng_range(r, 1, 5)); plan_knob(p, "tmpdir.len", tl[rng_below(r, 13)]); }
     if (rng_chance(r, 1, 10)) {
         /* a directory whose listing is as long as the line buffer, give or take a few bytes */
